@@ -73,6 +73,11 @@ var c10Roots = []struct {
 		Arr2  [2]*futil2.Dur
 	}]()},
 	{"[]*string", reflect.TypeFor[[]*string]()},
+	// entries whose literals mention, first, one or the other of two packages that want the same local name
+	{"map[string]struct{A *util.Sub; B *util2.Wrap}", reflect.TypeFor[map[string]struct {
+		A *futil.Sub
+		B *futil2.Wrap
+	}]()},
 	{"map[string]*v1.Item", reflect.TypeFor[map[string]*fv1.Item]()},
 	{"uint64", reflect.TypeFor[uint64]()},
 	{"int64", reflect.TypeFor[int64]()},
@@ -92,6 +97,7 @@ type vlitCase struct {
 	Depth int    `json:"depth"`
 	// oracle verdict of the compile-and-run batch, when this case was part of one
 	runVerdict string
+	unstable   string
 	sampled    bool
 	inBatch    bool
 	out        string
@@ -265,6 +271,19 @@ func (c *vlitCase) Run() string {
 	})
 	if c.out != "panic" {
 		c.out += " imports " + imps
+		// the text and the import names must not depend on the order in which a map presents its entries: the same value
+		// rendered again through fresh writers gives the same bytes
+		for i := 0; i < 6; i++ {
+			w2 := newVWriter()
+			again := guard(func() string { return "ok " + hx(w2.render(snippet.Value(v.Interface()))) })
+			if again != "panic" {
+				again += " imports " + showImports(w2.tr.Imports())
+			}
+			if again != c.out {
+				c.unstable = fmt.Sprintf("the same value rendered twice gave different texts or import names: %s / %s", clip(unhx(strings.Fields(c.out)[1]), 300)+" "+c.out[strings.Index(c.out, " imports "):], clip(unhx(strings.Fields(again + " x")[1]), 300))
+				break
+			}
+		}
 	}
 	return c.out
 }
@@ -283,6 +302,9 @@ func (c *vlitCase) CanonModel(m string) string {
 func (c *vlitCase) Oracle(out string) string {
 	if out == "panic" {
 		return "rendering a value of the domain panicked"
+	}
+	if c.unstable != "" {
+		return c.unstable
 	}
 	text := unhx(strings.Fields(out)[1])
 	// every case: the text is a Go expression
@@ -763,7 +785,7 @@ func init() {
 				return &vlitCase{Root: r.Intn(len(c10Roots)), Seed: r.U64(), Depth: 1 + r.Intn(4)}
 			},
 			ShrinkBudget: 6, MaxShrinks: 5,
-			Rule: "random values (depth ≤ 4) of 31 root types (one of them holding composites that differ only below a pointer side by side) built with reflect around fixture named types of three packages, time.Duration and an unnamed struct type: structs with exported and unexported fields, single-level pointers to scalars / strings / named scalars / structs (zero ones included), slices, arrays, maps with string / int / named keys, strings with quotes, newlines, backquotes, NUL and non-UTF-8 bytes, extreme integers, runes, float32/float64 edge values; rendered with snippet.Value through a real writer; compared with the model byte for byte (leaf literals and type texts supplied); oracle: every literal parses as a Go expression, and a sample (quick: 300, thorough: all) is compiled as `var vN T = <literal>` with the registered imports and run, canon.Value of the result compared with canon.Value of the original (nil = empty, omitted fields zero)",
+			Rule: "random values (depth ≤ 4) of 32 root types (one of them holding composites that differ only below a pointer side by side) built with reflect around fixture named types of three packages, time.Duration and an unnamed struct type: structs with exported and unexported fields, single-level pointers to scalars / strings / named scalars / structs (zero ones included), slices, arrays, maps with string / int / named keys, strings with quotes, newlines, backquotes, NUL and non-UTF-8 bytes, extreme integers, runes, float32/float64 edge values; rendered with snippet.Value through a real writer, then six more times through fresh writers (same bytes, same import names: map order must not show); compared with the model byte for byte (leaf literals and type texts supplied); oracle: every literal parses as a Go expression, and a sample (quick: 300, thorough: all) is compiled as `var vN T = <literal>` with the registered imports and run, canon.Value of the result compared with canon.Value of the original (nil = empty, omitted fields zero)",
 		}
 		return st
 	}
